@@ -17,6 +17,10 @@ RFC 8259 trees of `Spec/Json.lean`:
   (`Open` is an invariant of `step`); with a non-empty stack the end-of-input rule never accepts; from
   `endTop` anything but whitespace is an error, and errors are final.)
 * `render_prefix_rejected` — the two combined, for objects and arrays.
+
+(`Vflow.Proofs.JsonLex` is imported although only `Spec` is used: both modules run `fun_induction` / `split` on
+`isStrBody`, `isNumber`, …, which creates auxiliary declarations on demand; created independently in two modules
+that are later imported together they clash, created once in the imported module they are shared.)
 -/
 namespace Vflow.JsonScan
 open Vflow Vflow.Spec
